@@ -237,8 +237,14 @@ pub(crate) enum StdoutStderrMode {
     /// it back to the connected client. `print`/`println` go to
     /// `stdout_buf`; `eprint`/`eprintln` go to `stderr_buf`.
     WriteToNReplBuffers {
+        #[cfg(not(wilfred_garden_verif))]
         stdout_buf: Arc<std::sync::Mutex<String>>,
+        #[cfg(not(wilfred_garden_verif))]
         stderr_buf: Arc<std::sync::Mutex<String>>,
+        #[cfg(wilfred_garden_verif)]
+        stdout_buf: Arc<verif_rt::sched::sync::Mutex<String>>,
+        #[cfg(wilfred_garden_verif)]
+        stderr_buf: Arc<verif_rt::sched::sync::Mutex<String>>,
     },
     /// Don't write anything when `print`/`println`/`eprint`/`eprintln`
     /// are called, treat them as a no-op. This is used when running
